@@ -49,6 +49,7 @@ def jobs_for(tier: str) -> list[dict]:
                 continue  # graphs_stream_frames reads quad.g: generator input must be pyjelly Quad objects
             for name, stmts in small[:6]:
                 jobs.append(dict(integ="rdflib", physical=physical, name=name, stmts=stmts, preset=(8, 8, 8), via=via, parsers=parsers[:1], generalized=False, rdf_star=False, delimited=True, frame_size=250, logical=None if via.startswith("flat") else flat_lt))
+    jobs += pipejob.scaled_jobs("rdflib", parsers)
     return jobs
 
 
